@@ -564,6 +564,7 @@ func runE2(c *fw.Ctx, codec string, comp []int, mode int, poolBound int) {
 	var execs, points int64
 	obs := map[string]bool{}
 	st := explore.Run(poolBound, 0, func(ch *explore.Chooser) {
+		c.Begin(locus, f.Name)
 		zzvsync.ResetPools()
 		zzvsync.SetPoolChooser(func(label string, n int) int { return ch.Choose(label, n) })
 		defer zzvsync.SetPoolChooser(nil)
